@@ -606,13 +606,7 @@ pub fn prepare(sizes: &[usize]) -> Vec<Prepared> {
     let dir = std::env::temp_dir().join(format!("bvsim-c15-{}", std::process::id()));
     let _ = std::fs::create_dir_all(&dir);
     for (i, &n) in sizes.iter().enumerate() {
-        let mut h = String::new();
-        for k in 0..n {
-            h.push_str(&format!(
-                "struct s{k} {{ int a; char b[{}]; struct s{k}* next; double d; }};\nint f{k}(struct s{k}* p, int x);\n",
-                1 + k % 7
-            ));
-        }
+        let h = header_text(n);
         let path = dir.join(format!("c15_{i}.h"));
         std::fs::write(&path, h).unwrap();
         for variant in 0..2 {
@@ -916,6 +910,11 @@ thread_local! {
 fn header_text(n: usize) -> String {
     let mut h = String::new();
     for k in 0..n {
+        // doc comments with multi-byte characters: the formatter's output is not
+        // plain ASCII, so byte-level handling of it (chunk boundaries) matters
+        if k % 3 == 0 {
+            h.push_str(&format!("/** Größe des Puffers nº{k} — ☃ 日本語 naïve */\n"));
+        }
         h.push_str(&format!(
             "struct s{k} {{ int a; char b[{}]; struct s{k}* next; double d; }};\nint f{k}(struct s{k}* p, int x);\n",
             1 + k % 7
